@@ -3,22 +3,43 @@ import re
 from .. import common as C
 
 MANIFEST = dict(
-    text="Lean 4 theorems over executable models of http_cgi_headers / http_cgi_encode_varname, the "
-         "FastCGI encoder (fcgi_create_env, fcgi_env_add, fcgi_stdin_append: BEGIN/PARAMS/STDIN records, "
-         "name-value coding, 65535 split, terminators), scgi_create_env (netstring and uwsgi packet), "
-         "mod_cgi's envp block and proxy_create_env / proxy_stdin_append: decode(encode(env, body, any "
-         "arrival schedule)) = (env, body), header->variable mapping never yields a server-defined name "
-         "or HTTP_PROXY, QUERY_STRING is the part after the first '?', SCRIPT_NAME ++ PATH_INFO is the "
-         "path; models tied to the C by differential runs through the real request parser, "
-         "gw_check_extension and the real builders under ASan/UBSan, plus independent Python decoders",
-    note="trusted: Lean kernel, hand-written models validated by the h_cgi correspondence: (a) the real "
-         "request parser + gw_check_extension + the real builders with explicit body arrival schedules "
-         "(temp-file spooling on/off), exact byte comparison; (b) the real gw_handle_subrequest / "
-         "gw_write_request / gw_write_refill_wb / h1_reqbody_read run in-process on client bytes in "
-         "Content-Length or chunked framing with scripted read/write timing and a scripted backend socket, "
-         "compared after decoding with independent Python decoders (connect phase, response reading, HTTP/2 "
-         "DATA path and the event loop are not executed); FastCGI constants regenerated from compat/fastcgi.h; "
-         "mod_ajp13/wstunnel/sockproxy and proxy URL/host remapping not modelled",
+    text="PROVED in Lean 4 over executable models (clause -> theorem): header->variable mapping never yields a "
+         "server-defined name or HTTP_PROXY, Content-Type -> CONTENT_TYPE, every non-empty field is mapped "
+         "(c09_varname, c09_header_vars_sound/_complete, c09_no_override); in the whole variable list the "
+         "request-line/body/script variables occur with exactly one value, the parsed request's component "
+         "(c09_meta_rfc3875, c09_content_length_first, c09_script_name_path_info for the gw_check_extension "
+         "split); FastCGI/SCGI/uwsgi/envp: decode(encode(env, body, any arrival schedule)) = (env, body), "
+         "terminated once, announced length = queued length, and for lighttpd's own variable list the "
+         "decoded CONTENT_LENGTH equals the decoded body's length (c09_fcgi/scgi/uwsgi_roundtrip, _e2e, "
+         "c09_cgi_envp_roundtrip); a body that ends early never yields a complete FastCGI request, an "
+         "authorizer gets no body (c09_fcgi_truncated_never_complete, c09_fcgi_authorizer); proxy: "
+         "Transfer-Encoding only as lighttpd's own single 'chunked', never together with Content-Length, only "
+         "in HTTP/1.1 with Host, no Proxy/Proxy-Connection, exactly one lighttpd-written Connection: close…, "
+         "every other admitted field forwarded unchanged, head ++ body resp. head ++ chunked(body) under every "
+         "arrival schedule (c09_proxy_framing, _chunked_http11, _head_hop_by_hop, _fields_complete, "
+         "_request, c09_hop_by_hop, c09_te_consumed_not_stored); HTTP/2 DATA frame bytes -> exactly the data, "
+         "padding stripped, and with Content-Length never more than it / 'complete' only on exactly it "
+         "(c09_h2_data_body, c09_h2_content_length_bound). PARTIAL (named _partial): QUERY_STRING = part after "
+         "the first '?' only for un-normalised targets; the proxy head re-parses to the same fields given "
+         "CR-free fields. TESTED ONLY (differential correspondence + independent Python decoders, not "
+         "proved): client framing Content-Length/chunked and network segmentation (real h1_reqbody_read), "
+         "h2 frame segmentation (real h2_parse_frames), stream-request-body 0/1/2, temp-file spooling, the "
+         "gw_write_refill_wb hand-over gates, the mod_cgi stdin path (cgi_write_request), values of the "
+         "remaining meta-variables, the generated Forwarded/X-Forwarded-* values",
+    note="trusted: Lean kernel; hand-written models validated by the h_cgi correspondence: (1,2) the real "
+         "request parser + gw_check_extension + the real builders (fcgi_create_env, scgi_create_env, "
+         "proxy_create_env, http_cgi_headers via mod_cgi's env callback, *_stdin_append) with explicit body "
+         "arrival schedules, exact byte comparison; (3) the real gw_handle_subrequest / gw_write_request / "
+         "gw_write_refill_wb / h1_reqbody_read in-process on client bytes in Content-Length or chunked "
+         "framing, stream-request-body 0/1/2, temp files on/off, scripted read/write timing and backend "
+         "socket, compared after decoding; (4) the real h2_parse_frames / h2_recv_data / h2_recv_end_data / "
+         "h2_recv_reqbody on DATA frame bytes (padding, segmentation, Content-Length, max-request-size, "
+         "consuming or buffering backend side); (5) request-target split through the real parser. NOT "
+         "executed: backend connect(), response reading, process management (fork/exec of CGI: "
+         "cgi_create_env's stdin set-up is imitated by the harness for the single-tempfile case), the event "
+         "loop. NOT modelled: mod_ajp13/wstunnel/sockproxy, proxy URL/host remapping, Forwarded 'by' "
+         "parameter; check-local's physical path-info split is C03's (http_response_physical_pathinfo) and "
+         "is an input here; FastCGI constants regenerated from compat/fastcgi.h",
     tech="Lean 4 proof over hand-written model + differential correspondence (in-process C harness)",
     ref="6/C09")
 
@@ -1353,10 +1374,19 @@ def run(ctx):
                 "strip-request-uri, authorizer, upgrade, h2) x body size and arrival schedule; distinct = "
                 "(operation, outcome, mode flags, body size class, schedule shape, completion state) tuples")
     ctx.assumptions += ["the request head is parsed by the real parser (modelled and checked under C01); the model "
-                        "takes the parsed field list and re-derives path/query with the C02 target model",
+                        "takes the parsed field list and re-derives path/query with the C02 target model; that a "
+                        "Transfer-Encoding field is never stored is C01's model (c09_te_consumed_not_stored) and a "
+                        "hypothesis (WfReq) of the proxy framing theorems",
                         "backend connect(), response reading, process management and the event loop of gw_backend.c are "
                         "not executed in-process; the backend socket is scripted (accepts a given number of bytes per event)",
-                        "HTTP/2 DATA reception (h2_recv_data) feeds the same reqbody_queue and is covered by C05/C06, not here",
+                        "HTTP/2: stream 4 runs h2_parse_frames/h2_recv_data/h2_recv_reqbody on DATA frames of one stream; "
+                        "HEADERS decoding, flow-control credit and multi-stream scheduling are C05/C06/C07",
+                        "with check-local enabled the path-info split is done by http_response_physical_pathinfo "
+                        "(modelled and checked end-to-end under C03); here the harness applies a stat-free imitation "
+                        "and the model receives its result as input",
+                        "mod_cgi: the variable list and the envp block are the real code's; the stdin hand-over runs "
+                        "the real cgi_write_request on the pipe path; the single-tempfile shortcut of cgi_create_env "
+                        "(fd passed to the child) is imitated by the harness, not executed",
                         "getsockname() on the client socket fails in the harness (SERVER_ADDR empty for wildcard sockets)"]
 
 
